@@ -8,10 +8,13 @@ import (
 	"fmt"
 	"io"
 	"math/rand"
+	"net"
 	"strconv"
 	"strings"
 	"time"
 	"unicode/utf8"
+
+	xmpp "gosrc.io/xmpp"
 )
 
 // C02, byte level (cases with variant `bytes`): the SAME byte string is given to Go's real tokenizer - an
@@ -33,7 +36,42 @@ func c02bTokens(r io.Reader, viaTransportBufio bool) (string, string) {
 	if viaTransportBufio {
 		r = bufio.NewReaderSize(r, c02bMaxPacket)
 	}
-	d := xml.NewDecoder(r)
+	return c02bTokensDec(xml.NewDecoder(r))
+}
+
+// eofConn delivers data in random chunks and returns the LAST chunk together with io.EOF (what crypto/tls does when the
+// peer's close_notify is already buffered behind the last record, and what any io.Reader may do).
+type eofConn struct {
+	chunkReader
+}
+
+func (c *eofConn) Read(p []byte) (int, error) {
+	n, err := c.chunkReader.Read(p)
+	if err == nil && len(c.data) == 0 {
+		return n, io.EOF
+	}
+	return n, err
+}
+func (c *eofConn) Write(p []byte) (int, error)        { return len(p), nil }
+func (c *eofConn) Close() error                       { return nil }
+func (c *eofConn) LocalAddr() net.Addr                { return &net.TCPAddr{} }
+func (c *eofConn) RemoteAddr() net.Addr               { return &net.TCPAddr{} }
+func (c *eofConn) SetDeadline(t time.Time) error      { return nil }
+func (c *eofConn) SetReadDeadline(t time.Time) error  { return nil }
+func (c *eofConn) SetWriteDeadline(t time.Time) error { return nil }
+
+// c02bTransportDecoder: the decoder of a real XMPPTransport (reader stack: connection, stream logger when traffic
+// logging is on, bufio) over a connection that delivers `data`.
+func c02bTransportDecoder(data []byte, seed int64, logged bool) *xml.Decoder {
+	t := xmpp.NewClientTransport(xmpp.TransportConfiguration{Address: "127.0.0.1:1", Domain: "localhost"}).(*xmpp.XMPPTransport)
+	if logged {
+		t.LogTraffic(io.Discard)
+	}
+	xmpp.VerifXMPPTransportSetConn(t, &eofConn{chunkReader{data: append([]byte(nil), data...), rng: rand.New(rand.NewSource(seed)), max: 1 + int(seed%97)}})
+	return t.GetDecoder()
+}
+
+func c02bTokensDec(d *xml.Decoder) (string, string) {
 	var toks []string
 	for {
 		t, err := d.Token()
@@ -88,6 +126,15 @@ func c02bObserve(data []byte, seed int64) string {
 				first = res{t, s}
 			} else if (res{t, s}) != first {
 				ch <- "chunk-mismatch " + m
+				return
+			}
+		}
+		// and through the reader stack of the real transport, without and with traffic logging, the last bytes arriving
+		// together with io.EOF
+		for _, logged := range []bool{false, true} {
+			t, s := c02bTokensDec(c02bTransportDecoder(data, seed+2, logged))
+			if (res{t, s}) != first {
+				ch <- "chunk-mismatch transport logged=" + strconv.FormatBool(logged)
 				return
 			}
 		}
